@@ -50,3 +50,13 @@ func Leaked() string
 // oldest runnable goroutine) is free and every other choice costs one unit; all schedules within
 // the budget are explored. 0 switches it off.
 func Deviations(k int)
+
+// Amplify returns sym in the symbolic run and native on native replay: repetition counts of a racy
+// step whose schedule the solver chose and which a native run can only hit by trying often.
+func Amplify(sym, native int) int
+
+// Stub replaces, for the symbolic run only, the named function (ssa name, e.g.
+// "(*pkg/path.T).Method") by impl, a model of code the engine cannot interpret (reflection-driven
+// codecs). impl takes the receiver as its first parameter. Natively the real function runs, so a
+// counterexample found through the model is confirmed against the real code on replay.
+func Stub(name string, impl any)
